@@ -175,7 +175,21 @@ def _profile(fdtdx, p, dt):
     raise ValueError(p["kind"])
 
 
+_EDGES = None  # explicit edges of the scene being built (rectilinear grids reject index-space constraints)
+
+
 def _box_constraints(obj, lo, hi):
+    if _EDGES is not None:
+        from fdtdx.objects.object import RealCoordinateConstraint
+
+        return [
+            RealCoordinateConstraint(
+                object=obj.name,
+                axes=(0, 1, 2),
+                sides=("-", "-", "-"),
+                coordinates=tuple(float(_EDGES[a][int(lo[a])]) for a in range(3)),
+            )
+        ]
     return [obj.set_grid_coordinates(axes=(0, 1, 2), sides=("-", "-", "-"), coordinates=tuple(int(x) for x in lo))]
 
 
@@ -202,7 +216,9 @@ def build(scene, key_seed=0, extra_objects=None, extra_constraints=None, apply=T
     import jax
     import jax.numpy as jnp
 
+    global _EDGES
     scene = copy.deepcopy(scene)
+    _EDGES = scene["grid"]["edges"] if scene["grid"]["kind"] == "rect" else None
     f64 = scene.get("dtype", "f64") == "f64"
     rdt = jnp.float64 if f64 else jnp.float32
     cdt = jnp.complex128 if f64 else jnp.complex64
